@@ -99,13 +99,13 @@ func (m *Monitors) OnCommand(cmd, ns, name string, inv *simapi.Invocation, err e
 
 // ERSView is the cluster as one replica-set invocation read it.
 type ERSView struct {
-	RS       *v1.ExtendedDaemonSetReplicaSet
-	EDS      *v1.ExtendedDaemonSet
-	Nodes    map[string]*corev1.Node
-	Pods     []*corev1.Pod
-	HasPods  bool // the invocation reached the pod listing
-	Role     string
-	Canary   map[string]bool
+	RS            *v1.ExtendedDaemonSetReplicaSet
+	EDS           *v1.ExtendedDaemonSet
+	Nodes         map[string]*corev1.Node
+	Pods          []*corev1.Pod
+	HasPods       bool // the invocation reached the pod listing
+	Role          string
+	Canary        map[string]bool
 	FirstWriteSeq uint64
 }
 
@@ -784,9 +784,9 @@ func (m *Monitors) ownObjects(inv *simapi.Invocation) {
 // ---- EDS invocations: C05, C07, C13, C14, C15(list) -----------------------------------------------------
 
 type edsView struct {
-	EDS   *v1.ExtendedDaemonSet
-	RSs   []*v1.ExtendedDaemonSetReplicaSet // as listed (may contain foreign ones: C12's defect)
-	Own   []*v1.ExtendedDaemonSetReplicaSet // those of this EDS per namespace + label
+	EDS *v1.ExtendedDaemonSet
+	RSs []*v1.ExtendedDaemonSetReplicaSet // as listed (may contain foreign ones: C12's defect)
+	Own []*v1.ExtendedDaemonSetReplicaSet // those of this EDS per namespace + label
 }
 
 func (m *Monitors) onEDS(inv *simapi.Invocation, out kit.Outcome) {
